@@ -90,9 +90,16 @@ def reverted(prop, commit, text, repo_root):
                             tmp], capture_output=True, text=True)
         if c.returncode != 0:
             return ("revert", commit, None, [], "clone failed")
-        r = subprocess.run(["git", "-c", "user.email=x@x", "-c", "user.name=x",
-                            "revert", "--no-commit", commit], cwd=tmp,
-                           capture_output=True, text=True)
+        manual = os.path.join(VERIF, "reverts", commit[:7] + ".diff")
+        if os.path.exists(manual):
+            # a hand-made undo patch takes precedence (the plain revert no
+            # longer applies, or no longer re-creates the defect)
+            r = subprocess.CompletedProcess([], 1)
+        else:
+            r = subprocess.run(["git", "-c", "user.email=x@x", "-c",
+                                "user.name=x", "revert", "--no-commit",
+                                commit], cwd=tmp, capture_output=True,
+                               text=True)
         if r.returncode != 0:
             # later repairs touched the same lines: hand-made undo patch
             manual = os.path.join(VERIF, "reverts", commit[:7] + ".diff")
